@@ -94,6 +94,7 @@ What we cannot do at the moment:
 # pylint: disable=too-many-ancestors,unused-argument,protected-access,import-outside-toplevel
 
 import collections.abc
+import re
 import functools
 import types
 import linecache
@@ -272,6 +273,25 @@ def par_convert(args, prog):
         return a  # return non-symbols as-is
 
     return [do_convert(a) for a in args]
+
+
+def par_from_str(s):
+    """Parse the string form of a symbolic Operation argument into a SymPy expression.
+
+    This is the inverse of how the Blackbird and XIR writers print expressions of free and
+    measured parameters: free parameters appear as ``{name}`` (Blackbird) or ``name`` (XIR),
+    measured parameters as ``q<mode>``. Every identifier that is not applied as a function
+    denotes a symbol; the result is meant to be passed on to :func:`par_convert`.
+
+    Args:
+        s (str): string representation of the expression
+
+    Returns:
+        sympy.Expr: the expression, over plain SymPy symbols
+    """
+    s = s.replace("{", "").replace("}", "")
+    names = re.findall(r"\b[A-Za-z_]\w*\b(?!\s*\()", s)
+    return sympy.sympify(s, locals={n: sympy.Symbol(n) for n in names})
 
 
 def par_regref_deps(p):
